@@ -14,6 +14,42 @@ using namespace sim;
 namespace {
 
 static std::vector<TMCG_SecretKey*> g_sk;
+static TMCG_SecretKey *g_nizk_sk = NULL;   // one key with the non-interactive proof of its well-formedness
+static bool g_nizk_ok = false;            // the harness's re-signing of that key gives an accepted key
+
+// the owner signs its (altered) key again, as TMCG_SecretKey::generate does
+static void resign_key(TMCG_SecretKey &sec)
+{
+	std::ostringstream data, repl;
+	sec.sig = "";
+	data << sec.name << "|" << sec.email << "|" << sec.type << "|" << sec.m << "|" << sec.y << "|" << sec.nizk << "|";
+	sec.sig = sec.sign(data.str());
+	repl << "ID" << TMCG_KEYID_SIZE << "^";
+	size_t pos = sec.sig.find(repl.str());
+	if (pos != std::string::npos) sec.sig.replace(pos, (repl.str()).length() + TMCG_KEYID_SIZE, sec.keyid());
+}
+// the proof "nzk^c1^v..^c2^v..^c3^v..^" with stage 'stage' (0..2) cut down to K rounds; empty if the layout is another
+static std::string truncate_key_proof(const std::string &nizk, int stage, size_t K, size_t *rounds_out)
+{
+	std::vector<std::string> t; std::string cur;
+	for (size_t i = 0; i < nizk.size(); i++) { if (nizk[i] == '^') { t.push_back(cur); cur.clear(); } else cur += nizk[i]; }
+	if (t.empty() || t[0] != "nzk") return "";
+	std::ostringstream o; o << "nzk^";
+	size_t pos = 1;
+	for (int st = 0; st < 3; st++)
+	{
+		if (pos >= t.size()) return "";
+		size_t cnt = (size_t)strtoul(t[pos].c_str(), NULL, 10);
+		if (cnt == 0 || cnt > 4096 || pos + 1 + cnt > t.size()) return "";
+		size_t keep = cnt;
+		if (st == stage) { if (rounds_out) *rounds_out = cnt; keep = K % cnt; } // 0 .. cnt-1 rounds
+		o << keep << "^";
+		for (size_t i = 0; i < keep; i++) o << t[pos + 1 + i] << "^";
+		pos += 1 + cnt;
+	}
+	if (pos != t.size()) return "";
+	return o.str();
+}
 
 static void qr_init(const Tier &)
 {
@@ -23,6 +59,14 @@ static void qr_init(const Tier &)
 	{
 		std::ostringstream n; n << "P" << i;
 		g_sk.push_back(new TMCG_SecretKey(n.str(), "p@example.org", (i % 2) ? 768 : 640, false));
+	}
+	// a key with the well-formedness proof; self-test of the harness: the unchanged proof, signed again by the owner
+	// the way the harness does it, gives a key that check() accepts (otherwise nothing is asserted about altered proofs)
+	g_nizk_sk = new TMCG_SecretKey("N", "n@example.org", 640, true);
+	{
+		TMCG_SecretKey c(*g_nizk_sk); resign_key(c);
+		TMCG_PublicKey pk(c); std::ostringstream o; o << pk; TMCG_PublicKey pk2; std::istringstream in(o.str()); in >> pk2;
+		g_nizk_ok = TMCG_PublicKey(*g_nizk_sk).check() && pk2.check();
 	}
 }
 
@@ -35,6 +79,7 @@ static Plan qr_generate(uint64_t seed, const Tier &tier)
 	bool proofs = tier.opt.count("noproofs") == 0, faults = tier.opt.count("nofaults") == 0;
 	// plans with proof sessions stay small: a cut-and-choose round re-masks every value of every card
 	int k = proofs ? (int)g.range(2, 4) : (int)g.range(2, 5);
+	p.cfg["keyproof"] = (proofs && faults) ? 1 : 0; // altered key proofs (C05) only in the legs with proof sessions and faults
 	p.cfg["k"] = k; p.cfg["w"] = proofs ? (g.chance(1, 8) ? 4 : (int64_t)g.range(1, 3)) : (g.chance(1, 6) ? (int64_t)g.range(5, 8) : (int64_t)g.range(1, 4));
 	int64_t nmaxs = proofs ? 6 : 10;
 	// rarely a full table: 31 or 32 seats (TMCG_MAX_PLAYERS; the six keys of the pool repeat) with one or two type bits,
@@ -258,6 +303,27 @@ static RunResult qr_execute(const Plan &plan)
 				}
 			}
 			continue;
+		}
+		if (op.kind == "card" && g_nizk_ok && (op.arg(0) % 5) == 0 && plan.get("keyproof", 0))
+		{
+			// C05 (non-interactive proof, truncation): a key owner cuts one stage of the proof of its key down to fewer
+			// rounds than the security parameter demands and signs the key again; the receiving player must refuse it
+			Rng gk(derive(plan.seed, 500 + oi));
+			int stage = (int)gk.below(3); size_t rounds = 0;
+			size_t K = gk.chance(1, 3) ? (size_t)gk.below(4) : (gk.chance(1, 2) ? (size_t)(4096 - 1 - gk.below(3)) : (size_t)gk.below(4096));
+			TMCG_SecretKey c(*g_nizk_sk);
+			std::string cut = truncate_key_proof(c.nizk, stage, K, &rounds);
+			if (!cut.empty())
+			{
+				S.single_party = 8; c.nizk = cut; resign_key(c);
+				TMCG_PublicKey pk(c); std::ostringstream o; o << pk; TMCG_PublicKey got; std::istringstream in(o.str()); in >> got;
+				S.single_party = 0;
+				bool acc = false; try { acc = got.check(); } catch (std::exception &) {}
+				res.cnt["fault.key_proof_stage_truncated"]++;
+				S.hist.add(H_FAULT, 77, (uint64_t)stage, (uint64_t)(K % (rounds ? rounds : 1)) * 2 + (acc ? 1 : 0));
+				if (acc) violate("C05", "key_proof_truncated_accepted", "a key whose well-formedness proof has stage " + std::to_string(stage + 1) + " cut down to " + std::to_string(K % rounds) + " of " + std::to_string(rounds) + " rounds (signed again by its owner) passes check()");
+				if (!res.ok()) break;
+			}
 		}
 		if (op.kind == "card")
 		{
